@@ -283,6 +283,14 @@ def run_unit(unit_name, template_rel, variant):
     sem, other = parse_errors(err or "", text, path)
     res["failures"] = sem
     reclassify_unknown_callees(res, text, tag)
+    # an addition / multiplication that cannot be proved to stay below the machine limit is not a
+    # violation of any listed property (2^64 notifications are not reachable) — no verdict from it
+    # alone; a possible UNDERFLOW (a subtraction) is a logic error and stays a semantic failure
+    soft = [f for f in res["failures"] if f["kind"] == "possible arithmetic underflow/overflow"
+            and "-" not in re.sub(r"->|//.*", "", f["clause"])]
+    if soft:
+        res["failures"] = [f for f in res["failures"] if f not in soft]
+        res.setdefault("needs_contract", []).extend("%s (possible overflow of an increment: `%s`)" % (f["function"], f["clause"][:60]) for f in soft)
     sem = res["failures"]
     res["stderr"] = (err or "")[-6000:]
     if other or vr.get("encountered-vir-error"):
@@ -296,8 +304,8 @@ def run_unit(unit_name, template_rel, variant):
     failed_fns = [k for k, v in res["functions"].items() if not v["ok"]]
     if res.get("needs_contract") and not sem:
         res["status"] = "undecided"
-        res["undecided"] = ("functions unknown to the contracts (%s) are called by / are the functions that fail: %s — "
-                            "needs contract, no verdict" % (", ".join(res.get("unknown_functions", [])), "; ".join(res["needs_contract"])))
+        res["undecided"] = ("no verdict (needs contract): %s%s" % ("; ".join(res["needs_contract"]),
+                            (" — functions unknown to the contracts: " + ", ".join(res["unknown_functions"])) if res.get("unknown_functions") else ""))
         return res
     if sem or failed_fns or not vr.get("success", False):
         if not sem:
